@@ -199,6 +199,49 @@ func runC16(c *Ctx) {
 			addCall = ci
 		}
 	}
+	// the admission step may be a helper of the command loop that reports whether the command was registered
+	var admSite *ssa.Call
+	if loadCall == nil && addCall == nil {
+		for _, ci := range core.Calls(csc) {
+			h := core.StaticCallee(ci)
+			call, isCall := ci.(*ssa.Call)
+			if h == nil || !isCall || !c.P.InPkg(h, "wire") || h.Blocks == nil {
+				continue
+			}
+			var hl *ssa.Call
+			var ha ssa.CallInstruction
+			for _, hi := range core.Calls(h) {
+				if atomicOp(hi, "Server", "closing") == "Load" {
+					hl, _ = hi.(*ssa.Call)
+				}
+				if wgOp(hi) == "Add" {
+					ha = hi
+				}
+			}
+			if hl != nil && ha != nil {
+				loadCall, addCall, admSite = hl, ha, call
+				ls = core.Locksets(h)
+				R.Analysed(fname(h))
+				// the helper answers true exactly when it has registered the command
+				okRes := len(returns(h)) > 0
+				for _, r := range returns(h) {
+					if r.Block() == h.Recover {
+						continue
+					}
+					k, isK := false, false
+					if len(r.Results) == 1 {
+						k, isK = core.ConstBool(forwardLoad(r.Results[0]))
+					}
+					passes := core.InstrDominates(ha, r)
+					avoids := !reachableAvoiding(ha.Block(), func(*ssa.BasicBlock) bool { return false })[r.Block()]
+					if !isK || (k && !passes) || (!k && !avoids) {
+						okRes = false
+					}
+				}
+				R.Check(okRes, "C16.R2", fkey(h)+":reports-registration", c.atFn(h), "the admission helper answers true exactly when it has registered the command with the wait group", "every return is the constant true after wg.Add, or the constant false on a path that cannot have passed it", "the admission helper's result does not tell whether wg.Add was executed: the caller may run a handler that is not registered, or release a registration it does not hold")
+			}
+		}
+	}
 	if loadCall == nil || addCall == nil {
 		R.Fail("C16.R2", "consumeSingleCommand:admission", c.atFn(csc), "command admission tests the closing flag and registers with the wait group", "closing.Load() or wg.Add not found in consumeSingleCommand")
 	} else {
@@ -222,6 +265,70 @@ func runC16(c *Ctx) {
 		}
 		R.Check(continuous, "C16.R2", "consumeSingleCommand:one-critical-section", c.at(addCall), "the closing test and wg.Add(1) execute in one critical section of Server.mu", "Server.mu is held at the test, at the Add and at every instruction between them", "Server.mu is not held continuously from the closing test to wg.Add(1): Close can run completely in between, return, and the handler starts afterwards")
 	}
+	// a connection registers only for a command that has arrived completely: every wg.Add on a connection's path is
+	// preceded by a successful message read. A registration taken before the client's next message (around the
+	// authentication exchange, say) is held while waiting for the client: an idle connection then blocks Close forever
+	{
+		var afterRead func(at ssa.Instruction, depth int) bool
+		afterRead = func(at ssa.Instruction, depth int) bool {
+			fn := at.Parent()
+			for _, ci := range core.Calls(fn) {
+				call, isCall := ci.(*ssa.Call)
+				if !isCall || !(isReaderMethod(call, "ReadTypedMsg") || isReaderMethod(call, "ReadUntypedMsg")) {
+					continue
+				}
+				if ev := errResultOf(call); ev != nil && anyDominates(nilEdges(ev, true), at.Block()) {
+					return true
+				}
+			}
+			if depth > 0 {
+				if site := c.onlyCaller(fn); site != nil {
+					return afterRead(site, depth-1)
+				}
+			}
+			return false
+		}
+		nAdd := 0
+		for fn := range c.connectionScope() {
+			if !c.P.InPkg(fn, "wire") {
+				continue
+			}
+			for _, ci := range core.Calls(fn) {
+				if wgOp(ci) != "Add" {
+					continue
+				}
+				nAdd++
+				R.Check(afterRead(ci, 3), "C16.R4", fkey(fn)+":registers-after-message-read", c.at(ci), "a connection holds a registration only while a command that has been received completely is handled (an idle connection never blocks Close)", "wg.Add is dominated by the success edge of a message read", "wg.Add in "+fname(fn)+" is not preceded by a successful message read: the registration is held while the server waits for the client's next message, and Close waits with it (a client idle at that point blocks shutdown forever)")
+			}
+		}
+		R.Floor("C16.R4", "wg.Add sites on the connection path", nAdd, 1)
+	}
+	// the flag, lock and wait group that admission uses are those Close operates on: there is one Server object, built
+	// by NewServer - a second one (a per-connection copy "with a logger", say) has its own zero flag and wait group
+	nSrv := 0
+	for _, fn := range c.P.ScopeFuncs() {
+		for _, b := range fn.Blocks {
+			for _, in := range b.Instrs {
+				switch x := in.(type) {
+				case *ssa.Alloc:
+					pt, ok := x.Type().Underlying().(*types.Pointer)
+					if ok {
+						_, ok = pt.Elem().Underlying().(*types.Struct)
+					}
+					if ok && core.IsNamed(pt.Elem(), pkWire, "Server") {
+						nSrv++
+						R.Check(fn.Name() == "NewServer" && c.P.InPkg(fn, "wire"), "C16.R2", fkey(fn)+":server-constructed", c.at(x), "the Server whose closing flag, lock and wait group the connections use is the one Close was called on (no second Server object exists)", "allocated in NewServer", "a Server value is constructed in "+fname(fn)+": connections served through it test a closing flag Close never sets and register in a wait group Close never waits on")
+					}
+				case *ssa.UnOp:
+					if _, isStruct := x.Type().Underlying().(*types.Struct); isStruct && x.Op == token.MUL && core.IsNamed(x.Type(), pkWire, "Server") {
+						nSrv++
+						R.Fail("C16.R2", fkey(fn)+":server-copied", c.at(x), "the Server whose closing flag, lock and wait group the connections use is the one Close was called on (no second Server object exists)", "the Server struct is copied by value in "+fname(fn)+": the copy has its own lock, flag and wait group")
+					}
+				}
+			}
+		}
+	}
+	R.Floor("C16.R2", "Server construction sites", nSrv, 1)
 	// in Close: the flag is set under the write lock, Wait comes after it and outside the lock
 	lsClose := core.Locksets(closeFn)
 	var setFlag ssa.CallInstruction
@@ -275,6 +382,11 @@ func runC16(c *Ctx) {
 	}
 	// Add / Done bracket handleCommand
 	hc := c.P.Method("wire", "Session", "handleCommand")
+	var registered []edge
+	if admSite != nil {
+		// in the command loop the registration is the true edge of the admission helper's answer
+		addCall, loadCall, registered = admSite, nil, boolEdges(admSite, true)
+	}
 	if addCall != nil && hc != nil {
 		var hcall ssa.CallInstruction
 		for _, ci := range callsIn(csc, calleeIs(hc)) {
@@ -283,6 +395,9 @@ func runC16(c *Ctx) {
 		isDone := func(ci ssa.CallInstruction) bool { return wgOp(ci) == "Done" }
 		// every path to the target passes Add (branches on the same closing-test value are correlated)
 		passesAdd := func(target ssa.Instruction) bool {
+			if admSite != nil {
+				return anyDominates(registered, target.Block())
+			}
 			if core.InstrDominates(addCall, target) {
 				return true
 			}
